@@ -1248,7 +1248,7 @@ ENCODER_API = {"encode_api_versions_request": "api_versions", "encode_metadata_r
                "encode_leave_group_request": "leave_group", "encode_join_group_request": "join_group",
                "encode_sync_group_request": "sync_group", "encode_offset_request": "list_offsets",
                "encode_offset_fetch_request": "offset_fetch", "encode_offset_commit_request": "offset_commit",
-               "encode_fetch_request": "fetch"}
+               "encode_fetch_request": "fetch", "encode_produce_request": "produce"}
 
 
 def translator_tie(ck):
@@ -1300,7 +1300,7 @@ def run(ck):
     enc_cases, enc_impl, enc_meta = [], [], []
     sp_cases, sp_impl, sp_meta = [], [], []
     for api in APIS:
-        n = (260 if api.name == "produce" else 120) * scale
+        n = (200 if api.name == "produce" else 90) * scale
         if api.name in tie_down:          # two-ties rule: the translator tie is down for this encoder, tie B carries it alone
             n *= 4
             ck.hist("cases_added_because_translator_tie_is_down_" + api.name, 3 * n // 4)
@@ -1356,7 +1356,7 @@ def run(ck):
 
     # ---- 1b. embedded structures of JoinGroup / SyncGroup
     cases, impl, pcases, pimpl = [], [], [], []
-    for _ in range(80 * scale):
+    for _ in range(50 * scale):
         s = gen_subscription(g)
         tr = CL.trace_bytes(lambda: codec_cls.encode_join_group_protocol_metadata(s["version"], s["subs"], s["ud"]))
         c = [13, s["version"], len(s["subs"])]
@@ -1404,7 +1404,7 @@ def run(ck):
              (True, [(0, 0, [(17, 0, 1), (0, 0, 8), (1, 0, 11)])]),
              (True, [(1,), (1,), (1,)]), (True, [(0, 35, [])]), (False, []), (True, []), (True, [(1,), (1,)]),
              (True, [(2,)]), (True, [(1,), (0, 0, [(1, 0, 2), (0, 0, 2)])])]
-    for k in range(150 * scale + len(fixed)):
+    for k in range(100 * scale + len(fixed)):
         if k < len(fixed):
             discovery, outs = fixed[k]
             ok_tables = True
@@ -1454,7 +1454,7 @@ def run(ck):
 
     # ---- 3. overlapping lookups (op 61)
     cases, impl, meta = [], [], []
-    histories = [(rnd.random() < 0.9, gen_events(rnd)) for _ in range(150 * scale)]
+    histories = [(rnd.random() < 0.9, gen_events(rnd)) for _ in range(100 * scale)]
     # exhaustive small scope (validation of the tie, not the proof): EVERY history of up to 3 (thorough: 4) events
     # over two overlapping calls and the outcomes table / error answer / unavailable / other failure
     exhaustive = all_event_histories(3 if ck.tier == "quick" else 4)
@@ -1485,7 +1485,7 @@ def run(ck):
 
     # ---- 4. end to end: Producer -> KafkaClient -> frames, parsed by both grammar parsers
     sp_cases, sp_impl = [], []
-    for k in range(60 * scale):
+    for k in range(40 * scale):
         discovery = rnd.random() < 0.85
         outs = [[(1,), (1,), (1,)], [(0, 35, [])], [(0, 0, gen_table(rnd, True))], [(1,), (0, 0, gen_table(rnd, True))]][k % 4]
         codec_id = rnd.choice([0, 1])
@@ -1513,17 +1513,10 @@ def run(ck):
                           "bytes": list(run["frames"][k][1]) if run["frames"] else [],
                           "parsed": repr(run["parsed"][k])[:1500] if run["parsed"] else None,
                           "expected": repr(run["expected"][k])[:1500] if run["expected"] else None, "replay_op": "frame"})
-    diffs, mo = ck.correspond(MODEL, MODULE, sp_cases, sp_impl, "grammar parsers Python vs Coq on frames captured end to end (Producer -> KafkaClient)",
-                              nontrivial=lambda c, o: o[0] == 1, describe=describe)
-    if diffs:
-        i = diffs[0]
-        ck.violation({"kind": "the two independent grammar parsers disagree on a captured frame (verification machinery)",
-                      "case": sp_cases[i][:300], "python": sp_impl[i][:300], "coq": mo[i][:300]}, no_input=True)
 
     # ---- 4b. end to end: every other request type through the real KafkaClient
     by_name = {api.name: api for api in APIS}
-    sp_cases, sp_impl = [], []
-    for k in range(25 * scale):
+    for k in range(16 * scale):
         for name, a, fr in e2e_client(rnd, g, discovery=(k % 2 == 1)):
             ck.hist("e2e_client_" + name + ("_v%d" % min(a["ver"], 2) if "ver" in a else ""))
             req, flat, case = spec_parse(fr)
@@ -1535,18 +1528,11 @@ def run(ck):
                                       "(client id, the correlation id registered with the broker client, fields)",
                               "api": name, "theorem": THEOREM_OF[name], "bytes": list(fr), "parsed": repr(req)[:1200],
                               "expected": repr(want)[:1200], "replay_op": "frame"})
-    diffs, mo = ck.correspond(MODEL, MODULE, sp_cases, sp_impl, "grammar parsers Python vs Coq on frames captured end to end (KafkaClient request methods)",
-                              nontrivial=lambda c, o: o[0] == 1, describe=describe)
-    if diffs:
-        i = diffs[0]
-        ck.violation({"kind": "the two independent grammar parsers disagree on a captured frame (verification machinery)",
-                      "case": sp_cases[i][:300], "python": sp_impl[i][:300], "coq": mo[i][:300]}, no_input=True)
 
     # ---- 4c. the request stream as a broker receives it: REAL KafkaClient + _KafkaBrokerClient + protocol + Producer +
     #          Consumer + ConsumerGroup over simnet, simulated broker built from the independent grammar only
     from props import C04_stream
-    sp_cases, sp_impl = [], []
-    for k in range(40 * scale):
+    for k in range(24 * scale):
         api_mode, discovery = [("table", True), ("error35", True), ("close", True), ("table", False)][k % 4]
         codec_id = (k // 4) % 2
         frames, problems, info = C04_stream.run_stream(rnd, nice, discovery, api_mode, codec_id)
@@ -1561,11 +1547,11 @@ def run(ck):
             ck.violation({"kind": "request stream received by the simulated broker (real client, broker client, framing, producer, "
                                   "consumer, group): " + problems[0][:600], "all_problems": [x[:600] for x in problems[:10]],
                           "config": info, "frames": [list(b) for b, _ in frames][:60], "replay_op": "none"})
-    diffs, mo = ck.correspond(MODEL, MODULE, sp_cases, sp_impl, "grammar parsers Python vs Coq on the byte stream written to the transports (real broker client + framing)",
+    diffs, mo = ck.correspond(MODEL, MODULE, sp_cases, sp_impl, "grammar parsers Python vs Coq on every frame captured end to end (Producer -> KafkaClient incl. retry; KafkaClient request methods; byte stream written to the transports by the real broker client + framing)",
                               nontrivial=lambda c, o: o[0] == 1, describe=describe)
     if diffs:
         i = diffs[0]
-        ck.violation({"kind": "the two independent grammar parsers disagree on a frame of the stream (verification machinery)",
+        ck.violation({"kind": "the two independent grammar parsers disagree on a frame captured end to end (verification machinery)",
                       "case": sp_cases[i][:300], "python": sp_impl[i][:300], "coq": mo[i][:300]}, no_input=True)
 
     # ---- 4d. None where the grammar wants a string: outside the theorems' hypotheses ([astr_wf] is false on None);
